@@ -35,7 +35,10 @@ def setup() -> int:
         print(f"[setup] area {area}: {'ok' if r.ok else 'FAILED'} in {time.time() - t0:.1f}s")
         if not r.ok:
             print("\n".join(r.log.splitlines()[-30:]))
-            rc = 1
+            # every check rebuilds its own area and reports a failure itself; only a broken
+            # shared base makes the setup as a whole fail
+            if area == "base":
+                rc = 1
     return rc
 
 
